@@ -635,6 +635,14 @@ class MapRun:
             for t, j in enumerate(bulk_order(op)):
                 fk = filler_key(self.kt, j)
                 if fk in model:
+                    if self.x and self.kind == "Tree":
+                        fl = self.flags
+
+                        def chk_k(ob, fl=fl):
+                            if ob == "ok 2":
+                                fl["two_children_rem"] = True
+                            return None if ob.startswith("ok") else "rbkids failed: " + ob
+                        P.add("rbkids %s %s" % (self.c, fk), chk_k)
                     self.op_line("rem %s %s" % (self.c, fk), None, len(model))
                     del model[fk]
                     if t % 16 == 5:
